@@ -60,12 +60,21 @@ def rule_dispatch(facts, rep):
             if e.get("k") == "local":
                 got = ("same",) if e["name"] == bound else ("other",)
             elif e.get("k") == "call":
-                got = ("call", hir.callee(e)) if hir.is_local(e["args"][0], bound) else ("call-other-arg",)
-                if len(e["args"]) == 2 and not hir.is_local(e["args"][1], "palette"):
-                    got = ("call-wrong-palette",)
+                # compared after unfolding thin wrappers on both sides: ansi_to_rgb(c, p) is p.rgb_from_ansi(c) is p.get(c)
+                tgt, targs = ac.thin_unfold(facts, "anstyle_lossy", e)
+                names = sorted(hir.local_name(x) or "?" for x in targs)
+                got = ("call", tgt) if sorted(n for n in names if n != "palette") == [bound] else ("call-other-arg",)
+                if "?" in names or any(n not in (bound, "palette") for n in names):
+                    got = ("call-wrong-palette",) if bound in names else ("call-other-arg",)
             else:
                 got = ("?",)
-            rep.check(got == table.get(v), "dispatch", b["path"], v, f"{v} arm must be {table.get(v)}; found {got}", loc(b, a))
+            want_v = table.get(v)
+            if want_v and want_v[0] == "call" and want_v[1].startswith("anstyle_lossy::"):
+                wb = facts.body("anstyle_lossy", want_v[1])
+                synth = {"k": "call", "resolved": want_v[1], "callee": want_v[1],
+                         "args": [{"k": "local", "name": p.get("name"), "id": p.get("id")} for p in wb["params"]]}
+                want_v = ("call", ac.thin_unfold(facts, "anstyle_lossy", synth)[0])
+            rep.check(got == want_v, "dispatch", b["path"], v, f"{v} arm must be {want_v}; found {got}", loc(b, a))
             rep.count()
     # thin wrappers
     for fn, callee in (("ansi_to_rgb", L + "palette::Palette::rgb_from_ansi"), ("rgb_to_ansi", L + "palette::Palette::find_match")):
@@ -82,59 +91,89 @@ def rule_tables(facts, rep):
     # xterm_to_ansi rows 0..15 + default
     b = facts.body("anstyle_lossy", L + "xterm_to_ansi")
     rep.fn(b["path"])
-    try:
-        m = ac.single_expr(b["hir"])
-    except Unrecognised:
-        m = {}
-    if m.get("k") != "match":
-        rep.bad("tables", b["path"], "0-15-are-the-16-colours",
-                "xterm_to_ansi must map indices 0..=15 to the 16 colours by a fixed table (indices 0-15 of the 256-colour palette ARE the "
-                "16-colour palette, whatever the user palette contains); the function is no longer a table lookup", loc(b))
-        m = {"arms": [], "scrut": {}}
-    got = {}
-    default = None
-    sc = hir.peel(m["scrut"])
-    for a in m["arms"]:
-        ints = hir.pat_ints(a["pat"])
-        if ints is None:
-            default = a
-        else:
-            for i in ints:
-                got[i] = hir.last_seg(hir.def_path(a["body"]))
+    # truth table over all 256 indices by abstract evaluation (anstyle's into_ansi / index are followed into their bodies):
+    # 0..=15 give the 16 colours in palette order whatever the palette is; 16..=255 give palette.find_match(XTERM_COLORS[i])
+    import abseval
+    pn = [p.get("name") for p in b["params"]]
+    bad16, badrest = [], []
+    for i in range(256):
+        ev = abseval.Evaluator(facts, "anstyle_lossy", {L + "palette::Palette::find_match": lambda a: ("nearest", a[0], a[1])}, inline_crates=("anstyle",))
+        env = abseval.Env()
+        env[pn[0]] = ("rec", {"0": ("int", i)})
+        env[pn[1]] = ("sym", "palette")
+        try:
+            try:
+                r = ev.ev(b["hir"], env)
+            except abseval.Return as rt:
+                r = rt.v
+        except Unrecognised as e:
+            raise Unrecognised(f"xterm_to_ansi: {e}")
+        if i < 16:
+            if r != ("enum", "anstyle::color::AnsiColor::" + sgr.ANSI16[i]):
+                bad16.append((i, r))
+        elif r != ("nearest", ("sym", "palette"), ("idx", "anstyle_lossy::XTERM_COLORS", i)):
+            badrest.append((i, r))
         rep.count()
-    rep.check(sc.get("k") == "field" and sc["name"] == "0" and got == {i: n for i, n in enumerate(sgr.ANSI16)}, "tables", b["path"], "0-15-are-the-16-colours",
-              f"{got}", loc(b))
-    ok = False
-    if default is not None:
-        calls = [n for n in hir.walk(default["body"]) if hir.is_call(n, L + "palette::Palette::find_match")]
-        idx = [n for n in hir.walk(default["body"]) if n.get("k") == "index" and hir.is_def(n["e"], "anstyle_lossy::XTERM_COLORS")]
-        ok = len(calls) == 1 and len(idx) == 1 and hir.is_local(calls[0]["args"][0], "palette") and hir.simp(idx[0]["i"]).get("k") == "cast"
-    rep.check(ok, "tables", b["path"], "16-255-nearest-of-fixed-rgb", "", loc(b))
+    rep.check(not bad16, "tables", b["path"], "0-15-are-the-16-colours",
+              f"indices 0..=15 of the 256-colour palette ARE the 16-colour palette, whatever the user palette contains: {bad16[:3]}", loc(b))
+    rep.check(not badrest, "tables", b["path"], "16-255-nearest-of-fixed-rgb", f"{badrest[:3]}", loc(b))
     # xterm_to_rgb: palette first
     b = facts.body("anstyle_lossy", L + "xterm_to_rgb")
     rep.fn(b["path"])
-    m = ac.single_expr(b["hir"])
-    sc = hir.simp(m["scrut"])
-    ok = hir.is_call(sc, L + "palette::Palette::rgb_from_index") and hir.is_local(sc["args"][0], "palette")
-    arms = {hir.last_seg(hir.pat_path(a["pat"])): a for a in m["arms"]}
-    if ok:
-        s = arms.get("Some")
-        n = arms.get("None")
-        ok = s is not None and n is not None and hir.is_local(s["body"], s["pat"]["pats"][0].get("name")) and \
-            hir.simp(n["body"]).get("k") == "index" and hir.is_def(hir.simp(n["body"])["e"], "anstyle_lossy::XTERM_COLORS")
-    rep.check(ok, "tables", b["path"], "palette-first-then-fixed-table", "", loc(b))
+    # the result is the palette's entry when rgb_from_index(palette, index) is Some, else XTERM_COLORS[index] — `match`, `if let`
+    # or `let .. else`, with the index in a temporary or not
+    O = hir.Origins(b["hir"])
+    R = hir.Resolver(b["hir"])
+    tail = hir.simp(hir.stmts_of(b["hir"])[-1])
+    vals = (O._branch_values(tail) or []) if tail.get("k") in ("if", "match", "block") else [tail]
+    kinds = []
+
+    def is_index_of_color(e):
+        e = hir.peel(R.res(hir.peel(e)))
+        return (hir.is_call(e, "anstyle::color::Ansi256Color::index") and hir.is_local(e["args"][0], "color")) or \
+            (e.get("k") == "field" and e["name"] == "0" and hir.is_local(e["e"], "color"))
+    for v in vals:
+        src, proj = O.of(v)
+        if hir.is_call(src, L + "palette::Palette::rgb_from_index") and proj == ("Some",) and hir.is_local(src["args"][0], "palette") and is_index_of_color(src["args"][1]):
+            kinds.append("palette")
+        elif hir.simp(v).get("k") == "index" and hir.is_def(hir.simp(v)["e"], "anstyle_lossy::XTERM_COLORS") and is_index_of_color(hir.simp(v)["i"]):
+            kinds.append("fixed")
+        else:
+            kinds.append("?")
+    rep.check(sorted(kinds) == ["fixed", "palette"], "tables", b["path"], "palette-first-then-fixed-table", f"{kinds}", loc(b))
     # Palette: rgb_from_index = Some(self.0[i]) iff i < len ; get = self.0[from_ansi(color).index()]
     b = facts.body("anstyle_lossy", L + "palette::Palette::rgb_from_index")
     rep.fn(b["path"])
-    ifs = [n for n in hir.walk(b["hir"]) if n.get("k") == "if"]
-    ok = False
-    if len(ifs) == 1:
-        c = hir.simp(ifs[0]["c"])
-        ok = c.get("k") == "bin" and c["op"] == "Lt" and hir.is_call(hir.simp(c["r"]), "len") and hir.place_str(hir.simp(c["r"])["args"][0]) == "self.0"
-        t = ac.single_expr(ifs[0]["t"])
-        ok = ok and t.get("ctor", "").endswith("Option::Some") and hir.simp(t["args"][0]).get("k") == "index" and \
-            hir.is_def(ac.single_expr(ifs[0]["e"]), "Option::None")
-    rep.check(ok, "tables", b["path"], "Some-iff-below-16", "", loc(b))
+    paths = hir.enumerate_paths(b["hir"])
+    ipid = b["params"][1].get("id")
+    ok = True
+    why = []
+    for idx, ln, want in ((3, 16, "some"), (15, 16, "some"), (16, 16, "none"), (200, 16, "none")):
+        def val(e, idx=idx, ln=ln):
+            e = hir.peel(R2.res(hir.peel(e)))
+            if e.get("k") == "local" and e.get("id") == ipid:
+                return ("int", idx)
+            if hir.is_call(e, "len") and hir.place_str(e["args"][0]) == "self.0":
+                return ("int", ln)
+            if e.get("k") == "lit" and e.get("t") == "int":
+                return ("int", e["v"])
+            return None
+        R2 = hir.Resolver(b["hir"])
+        feas = [p for p in paths if hir.path_feasible(p, val)]
+        if len(feas) != 1:
+            ok = False
+            why.append(f"{len(feas)} paths for index {idx}")
+            continue
+        v = hir.simp(feas[0].value) if feas[0].value is not None else {}
+        if want == "some":
+            good = v.get("ctor", "").endswith("Option::Some") and hir.simp(v["args"][0]).get("k") == "index" and \
+                hir.place_str(hir.simp(v["args"][0])["e"]) == "self.0" and val(hir.simp(v["args"][0])["i"]) == ("int", idx)
+        else:
+            good = hir.is_def(v, "Option::None")
+        if not good:
+            ok = False
+            why.append(f"index {idx}, len {ln}: returns {hirpp.expr(v)[:40]}")
+    rep.check(ok, "tables", b["path"], "Some-iff-below-16", f"Some(self.0[index]) exactly when index < self.0.len(): {why[:2]}", loc(b))
     g = facts.body("anstyle_lossy", L + "palette::Palette::get")
     rep.fn(g["path"])
     ok = bool(hir.calls_in(g["hir"], "anstyle::color::Ansi256Color::from_ansi")) and bool(hir.calls_in(g["hir"], L + "palette::Palette::get_ansi256_ref"))
